@@ -2,7 +2,7 @@
 (* C13 generation: one (or two) unsupported payloads inserted into encodable messages: all 239 unsupported type *)
 (* codes x all positions x both critical-flag values x body lengths (DESIGN.md section 6, C13).                *)
 EXTENDS CodecLife, Pools
-VARIABLES stage, bi, pos, ty, crit, blen, second
+VARIABLES stage, bi, pos, ty, crit, blen, second, adj
 
 Bases == << << >>, << Rep("N") >>, << Rep("SA"), Rep("KE") >>, << Rep("IDi"), Rep("AUTH"), Rep("TSi") >>,
             << Rep("EAP") >>, << Rep("CP"), Rep("D"), Rep("V"), Rep("CERT") >> >>
@@ -11,16 +11,19 @@ UnsupportedTypes == (1..32) \cup (49..255)
 LenPool == IF Thorough THEN {0, 1, 2, 3, 4, 7, 8, 255, 256, 1023, 1024} ELSE {1, 7, 1024}
 FullLenTypes == {1, 128, 255}
 
-Init == stage = 0 /\ bi = 0 /\ pos = 0 /\ ty = 0 /\ crit = 0 /\ blen = 0 /\ second = 0
+Init == stage = 0 /\ bi = 0 /\ pos = 0 /\ ty = 0 /\ crit = 0 /\ blen = 0 /\ second = 0 /\ adj = 0
 Next ==
-  \/ stage = 0 /\ stage' = 1 /\ bi' \in 1..Len(Bases) /\ UNCHANGED << pos, ty, crit, blen, second >>
-  \/ stage = 1 /\ stage' = 2 /\ pos' \in 1..(Len(Bases[bi]) + 1) /\ UNCHANGED << bi, ty, crit, blen, second >>
+  \/ stage = 0 /\ stage' = 1 /\ bi' \in 1..Len(Bases) /\ UNCHANGED << pos, ty, crit, blen, second, adj >>
+  \/ stage = 1 /\ stage' = 2 /\ pos' \in 1..(Len(Bases[bi]) + 1) /\ UNCHANGED << bi, ty, crit, blen, second, adj >>
   \/ stage = 2 /\ stage' = 3 /\ UNCHANGED << bi, pos >> /\ crit' \in {0, 1}
-     /\ \/ ty' \in UnsupportedTypes /\ blen' = 0 /\ second' = 0                                    \* exhaustive single insertions
-        \/ ty' \in {1, 32, 49, 128, 255} /\ blen' \in LenPool /\ second' = 0
-        \/ Thorough /\ bi <= 3 /\ ty' \in FullLenTypes /\ blen' \in 0..1024 /\ second' = 0 /\ crit' = 0
-        \/ ty' \in {2, 200} /\ blen' \in {0, 5} /\ second' \in {1, 31, 50, 254}                     \* double insertions
-  \/ stage = 3 /\ UNCHANGED << stage, bi, pos, ty, crit, blen, second >>
+     /\ \/ ty' \in UnsupportedTypes /\ blen' = 0 /\ second' = 0 /\ adj' = 0                        \* exhaustive single insertions
+        \/ ty' \in {1, 32, 49, 128, 255} /\ blen' \in LenPool /\ second' = 0 /\ adj' = 0
+        \/ Thorough /\ bi <= 3 /\ ty' \in FullLenTypes /\ blen' \in 0..1024 /\ second' = 0 /\ crit' = 0 /\ adj' = 0
+        \/ ty' \in {2, 200} /\ blen' \in {0, 5} /\ second' \in {1, 31, 50, 254} /\ adj' = 0         \* double insertions, the second in front
+        \* two unsupported payloads NEXT TO each other, EVERY type code in either place (the skipped payload's next-payload field is
+        \* the only thing that names the type of its neighbour): the second one directly before (adj 1) / directly behind (adj 2)
+        \/ (Thorough \/ bi = 3) /\ ty' \in UnsupportedTypes /\ blen' = (ty' % 3) /\ second' \in {7, 200} /\ adj' \in {1, 2}
+  \/ stage = 3 /\ UNCHANGED << stage, bi, pos, ty, crit, blen, second, adj >>
 
 SC == (ty + pos + blen) % 2       \* half of the vectors have the critical flag set on every implemented payload
 Body == Fill(IF blen % 2 = 0 THEN "seeded" ELSE "ff", blen, Seed + ty)
@@ -31,7 +34,7 @@ Vec ==
   IF second = 0 THEN InsertVector(Base(bi), pos, ty, crit, Body, SC)
   ELSE LET w  == PlainMsg(Norm(Base(bi)))
            p1 == InsertUnk(WithCrit(w, SC).payloads, pos, ty, crit, 0, Body)
-           p2 == InsertUnk(p1, 1, second, 0, 127, << 9, 9, 9 >>)
+           p2 == InsertUnk(p1, CASE adj = 0 -> 1 [] adj = 1 -> pos [] OTHER -> pos + 1, second, 0, 127, << 9, 9, 9 >>)
            b  == EncMsgW([w EXCEPT !.payloads = p2]) IN
        Vector("insert2", << Step("decode", "C13", FALSE, [wire |-> b, caps |-> FALSE],
                                  IF crit = 1 THEN [panic |-> FALSE, capdiff |-> FALSE, err |-> TRUE]
